@@ -274,6 +274,12 @@ static void gen_op(char *line, size_t cap) {
       if (o->type == HWLOC_OBJ_GROUP || (o->parent && (o->parent->type == HWLOC_OBJ_GROUP || o->parent->misc_arity)) || (o->first_child && o->first_child->misc_arity)
           || (o->arity == 1) || (o->parent && o->parent->arity == 1)) { id = r2; break; }
     }
+    /* any object may adopt a Misc: memory objects (NUMA nodes, memory-side caches) and the Misc objects below them one time in five */
+    if (rng_chance(20)) for (int k = 0; k < 30; k++) {
+      unsigned r2 = rng_below(nobjs); hwloc_obj_t o = objs[r2];
+      if (o->type == HWLOC_OBJ_MEMCACHE || o->type == HWLOC_OBJ_NUMANODE || (o->type == HWLOC_OBJ_MISC && o->parent && !o->parent->cpuset)
+          || (o->type == HWLOC_OBJ_MISC && o->parent && (o->parent->type == HWLOC_OBJ_MEMCACHE || o->parent->type == HWLOC_OBJ_NUMANODE))) { id = r2; break; }
+    }
     snprintf(line, cap, "OP misc %u %s", id, h1);
   } else if (r < 72) {
     int bynode = rng_chance(25);
@@ -359,7 +365,10 @@ static void gen_synthetic(char *s, size_t cap) {
     "pack:2 core:2 pu:2", "numa:2 core:2 pu:2", "pack:2 numa:2 l2:2 core:1 pu:2", "pack:2 [numa] l3:2 core:2 pu:1",
     "group:2 pack:2 [numa] core:2 pu:2", "pack:3 [numa] [numa] core:2 pu:1", "numa:4 pu:2", "pack:2 die:2 l3:1 core:2 pu:2",
     "pack:1 numa:2 core:3 pu:1", "2 2 2", "pack:2 [numa(memory=1GB)] l2:2 l1:1 core:1 pu:2", "pu:4", "pack:4 pu:1",
-    "group:2 group:2 numa:1 core:2 pu:1", "pack:2 core:3 pu:2(indexes=core:pu)" };
+    "group:2 group:2 numa:1 core:2 pu:1", "pack:2 core:3 pu:2(indexes=core:pu)",
+    /* memory-side caches (kept only when the MemCache filter says so): Misc below a MemCache, memory children behind caches */
+    "pack:2 [numa(memory=1GB memorysidecachesize=256MB)] core:2 pu:2", "numa:2(memorysidecachesize=64MB) l2:2 core:1 pu:2",
+    "pack:2 [numa(memorysidecachesize=128MB)] [numa] core:2 pu:1", "[numa(memorysidecachesize=1GB)] pack:2 core:2 pu:1" };
   snprintf(s, cap, "%s", shapes[rng_below(sizeof shapes / sizeof shapes[0])]);
 }
 
@@ -403,7 +412,7 @@ int main(int argc, char **argv) {
     if (rng_chance(30)) fm = 2;                          /* Misc and I/O kept: the special-children code paths need them */
     if (fm == 0) { for (int i = 0; i < 20; i++) filters[i] = '0'; filters[13] = '-'; }
     else if (fm == 1) { for (int i = 0; i < 20; i++) filters[i] = '2'; }
-    else if (fm == 2) { for (int i = 16; i < 20; i++) filters[i] = '0'; }
+    else if (fm == 2) { for (int i = 16; i < 20; i++) filters[i] = '0'; if (rng_chance(60)) filters[15] = '0'; /* MemCache */ }
     if (nsrcs && rng_chance(20)) { strcpy(arg, srcs[rng_below(nsrcs)].path); kind = 'X'; }
     else gen_synthetic(arg, sizeof arg);
     fprintf(fops, "LOAD %c %lu %s %s\n", kind, flags, filters, arg); fprintf(fc, ".\n"); fflush(fops);
